@@ -203,7 +203,14 @@ fn main() {
             exec::install_quiet_panic_hook();
             let bits: u32 = args[2].parse().expect("bits");
             let level: u32 = args[3].parse().expect("level");
-            match props::c13::render_digest(&args[4], bits, level) {
+            let source = if args[4] == "-" {
+                let mut s = String::new();
+                std::io::Read::read_to_string(&mut std::io::stdin(), &mut s).expect("source on stdin");
+                s
+            } else {
+                args[4].clone()
+            };
+            match props::c13::render_digest(&source, bits, level) {
                 Ok(d) => println!("{d}"),
                 Err(e) => {
                     eprintln!("{e}");
